@@ -233,8 +233,40 @@ pub fn solver_linear(thorough: bool) -> Report {
             Err(e) => r.fail(format!("all-fixed:{backend}"), format!("[solver-all-fixed] every parameter is fixed (one equation `a - 2`, a fixed at 2): solve does not return the empty map: {e}"), json!({"contract":"solver_linear"})),
         }
     }
+    // parameters that occur in no equation: a free one is still returned (exactly the free parameters), a fixed one is not
+    for backend in 0..2 {
+        for n in [1usize, 2, 4, 5] {
+            for start_at_solution in [false, true] {
+                r.cases += 1;
+                let mut sys = linear_system(n, 1, start_at_solution, 1.0);
+                let (spare_free, spare_fixed) = (Var::new(), Var::new());
+                sys.params.insert(spare_free, Parameter::Free(0.75));
+                sys.params.insert(spare_fixed, Parameter::Fixed(-1.5));
+                let bn = if backend == 0 { "vm" } else { "jit" };
+                match solve_on(backend, &sys.trees, &sys.params) {
+                    Err(e) => r.fail(format!("spare:{}:{bn}:start{}", sys.desc, start_at_solution as u8), format!("[solver-spare] system ({}) plus one free and one fixed parameter that occur in no equation, on {bn}: {e}", sys.desc), json!({"contract":"solver_linear"})),
+                    Ok(sol) => {
+                        let mut bad: Vec<String> = vec![];
+                        if !sol.contains_key(&spare_free) { bad.push("the free parameter that occurs in no equation is missing from the result".into()); }
+                        if sol.contains_key(&spare_fixed) { bad.push("the fixed parameter that occurs in no equation is in the result".into()); }
+                        if sol.len() != sys.free.len() + 1 { bad.push(format!("returned {} values for {} free parameters", sol.len(), sys.free.len() + 1)); }
+                        for (i, (v, w)) in sys.free.iter().enumerate() {
+                            match sol.get(v) {
+                                None => bad.push(format!("free parameter #{i} missing")),
+                                Some(g) if ((*g as f64) - w).abs() > 1e-2 * (1.0 + w.abs()) => bad.push(format!("free parameter #{i}: got {g}, unique solution {w}")),
+                                _ => {}
+                            }
+                        }
+                        if !bad.is_empty() {
+                            r.fail(format!("spare:{}:{bn}:start{}", sys.desc, start_at_solution as u8), format!("[solver-spare] system ({}) plus one free and one fixed parameter that occur in no equation, on {bn}: {}", sys.desc, bad.join("; ")), json!({"contract":"solver_linear"}));
+                        }
+                    }
+                }
+            }
+        }
+    }
     std::panic::set_hook(prev);
-    r.space = format!("diagonally dominant consistent linear systems with 1..={max_n} variables (integer target values in -4..=4) x {seeds} seeds x unknowns of magnitude 1 and (n <= 8) 2^-27 (coefficients ~1e8, right-hand sides O(1)) and 2^13: a random third of the variables fixed at their target value (never all), one equation per free variable over a sparse random subset of up to 4 variables in random term order, free parameters started off the solution and exactly at it, x {{VM, JIT}}: exactly the free parameters are returned, each within 1e-2 relative of the unique solution, bit-identical to the start when the start satisfies every equation exactly, VM and JIT within 1e-2 of each other; plus the system whose only parameter is fixed (expected: empty result)");
+    r.space = format!("diagonally dominant consistent linear systems with 1..={max_n} variables (integer target values in -4..=4) x {seeds} seeds x unknowns of magnitude 1 and (n <= 8) 2^-27 (coefficients ~1e8, right-hand sides O(1)) and 2^13: a random third of the variables fixed at their target value (never all), one equation per free variable over a sparse random subset of up to 4 variables in random term order, free parameters started off the solution and exactly at it, x {{VM, JIT}}: exactly the free parameters are returned, each within 1e-2 relative of the unique solution, bit-identical to the start when the start satisfies every equation exactly, VM and JIT within 1e-2 of each other; plus the system whose only parameter is fixed (expected: empty result); plus systems (n = 1, 2, 4, 5) with one extra free and one extra fixed parameter that occur in no equation (expected: the free one is in the result, the fixed one is not, the others are solved)");
     r.distinct = r.cases;
     r.exhaustive = false;
     r.sample(json!({"n":5,"fixed":[0,1,0,0,1],"equation":"3*v2 + 1*v0 - 0.5*v4 - rhs"}));
